@@ -358,6 +358,7 @@ impl RecvEngine {
         // oracle shadow (independent of the model): FDT instances seen so far
         let info = guarded(|| parse_info(bytes));
         let mut fdt_id = 0;
+        let mut done: Option<u32> = None;
         self.cur_key = 0;
         self.cur_is_toi0 = false;
         self.cur_encoded = false;
@@ -383,7 +384,9 @@ impl RecvEngine {
             if i.tsi == TSI && i.toi == 0 {
                 if let Some(id) = i.fdt_id {
                     fdt_id = id;
-                    self.sh.feed(i, now as i128);
+                    if self.sh.feed(i, now as i128) {
+                        done = Some(id);
+                    }
                     self.max_xml = self.max_xml.max(self.sh.max_len());
                 }
             }
@@ -392,6 +395,9 @@ impl RecvEngine {
         rx.cur_fdt.set(fdt_id);
         let (r, evs, dt) = Self::call(rx, true, |r| r.push_data(bytes, st(now)).is_ok());
         let obs = self.observe(r, evs, dt, now, o, "push_data");
+        if let Some(id) = done {
+            self.sh.completed_call(id, &obs);
+        }
         // ---- C19: a receiver clock skew of any size does not change the outcome (SCT present)
         if let Some(rx0) = self.rx0.as_mut() {
             rx0.cur_fdt.set(fdt_id);
@@ -458,6 +464,7 @@ impl Engine for RecvEngine {
                     fast: t[10].parse().unwrap_or(0),
                 };
                 self.cfg = c;
+                self.sh = Shadow { once: c.once, obj_to: c.obj_to, ..Default::default() };
                 alloc::reset();
                 self.rx = Some(make_rx(&c, true));
                 if c.skew != 0 && c.sct {
@@ -534,6 +541,7 @@ impl Engine for RecvEngine {
                 if stale {
                     std::thread::sleep(Duration::from_millis(3));
                 }
+                self.sh.cleanup(t[3]);
                 let rx = self.rx.as_mut().unwrap();
                 let (r, evs, dt) = Self::call(rx, true, |r| {
                     r.cleanup(st(now));
